@@ -178,13 +178,27 @@ def rx(e, top=True):
     return '{' + inner + '}' if top else inner
 
 
-def _rx_inner(e):
+_PREC = {'or': 1, 'and': 2, '<': 3, '<=': 3, '>': 3, '>=': 3, '==': 3, '!=': 3, '+': 4, '-': 4,
+         '*': 5, '/': 5, '%': 5, '^': 6}
+
+
+def _rx_inner(e, parent=0, right=False):
+    """Render inside braces; a child operator is parenthesised when the documented
+    precedence/associativity would otherwise regroup it (the AST is the meaning)."""
     if isinstance(e, Bin):
-        return '%s %s %s' % (_rx_inner(e.l), e.op, _rx_inner(e.r))
+        p = _PREC[e.op]
+        rassoc = e.op == '^'
+        t = '%s %s %s' % (_rx_inner(e.l, p, rassoc), e.op, _rx_inner(e.r, p, not rassoc))
+        if p < parent or (p == parent and right):
+            return '(' + t + ')'
+        return t
     if isinstance(e, Neg):
-        return '-' + _rx_inner(e.e)
+        inner = _rx_inner(e.e, 7)
+        return '-' + inner
     if isinstance(e, Paren):
         return '(' + _rx_inner(e.e) + ')'
+    if isinstance(e, Num) and e.sid is None and e.value < 0 and parent > 0:
+        return '(' + rx(e, top=False) + ')'
     return rx(e, top=False)
 
 
